@@ -52,8 +52,24 @@ def _binary_op(op, lhs, rhs):
     if lhs.nvec != rhs.nvec:
         raise ValueError("Operands do not have the same number of components.")
 
-    out = {c: getattr(xyz, op)(getattr(rhs, c)) for c, xyz in lhs._xyz.items()}
-    if op in ("__iadd__", "__isub__", "__imul__", "__itruediv__"):
+    inplace = op in ("__iadd__", "__isub__", "__imul__", "__itruediv__")
+    rhs_xyz = {c: getattr(rhs, c) for c in lhs._xyz.keys()}
+    if inplace:
+        # The components are updated one after the other: a right operand that
+        # shares memory with a component of lhs (v *= v.x, v += Vector(v.y, v.x))
+        # must be read before the first of them is overwritten.
+        targets = [xyz.values for xyz in lhs._xyz.values()]
+        rhs_xyz = {
+            c: (
+                r.copy()
+                if any(np.may_share_memory(r.values, t) for t in targets)
+                else r
+            )
+            for c, r in rhs_xyz.items()
+        }
+
+    out = {c: getattr(xyz, op)(rhs_xyz[c]) for c, xyz in lhs._xyz.items()}
+    if inplace:
         # The components have been updated in place: keep the same Vector object,
         # so that every other reference to it sees the new values and unit.
         return lhs
